@@ -97,6 +97,26 @@ def r2_r4(ctx, F, hub):
             eq, ne = eq_edges(fl, cb)
             equal |= eq
             unequal |= ne
+    # any comparison of the declared hash with something else (what that something is may be outside this model: a digest
+    # produced by a hashing `Write` adaptor, a helper's return value)
+    other_equal, other_unequal = set(), set()
+    if not equal:
+        for cb, ct in fl.calls_to('std::cmp::PartialEq::eq', 'std::cmp::PartialEq::ne'):
+            o0, o1 = fl.origins(ct['args'][0]), fl.origins(ct['args'][1])
+            if is_claim(o0) or is_claim(o1):
+                eq, ne = eq_edges(fl, cb)
+                other_equal |= eq
+                other_unequal |= ne
+        for bi in cfg.reachable():
+            for st_ in b.blocks[bi]['stmts']:
+                rv_ = st_['rv']
+                if rv_['k'] == 'bin' and rv_['op'] in ('Eq', 'Ne') and (is_claim(fl.origins(rv_['ops'][0])) or is_claim(fl.origins(rv_['ops'][1]))):
+                    oc_ = fl.outcomes(None, st_['dst']['l'])
+                    other_equal |= oc_.get('true' if rv_['op'] == 'Eq' else 'false', set())
+                    other_unequal |= oc_.get('false' if rv_['op'] == 'Eq' else 'true', set())
+    if not equal and other_equal and cfg.edges_guard(other_equal, lb) and not updates:
+        ctx.undecided('C10.R2', 'handle_put compares the declared hash with a digest computed outside this body (a hashing writer / helper): that it is the hash of exactly the stored bytes is not decided')
+        return
     ctx.check(bool(equal) and cfg.edges_guard(equal, lb), 'C10.R2', 'handle_put:commit-needs-hash-equal',
               'commit region entered only on finalize(hasher) == request hash',
               'the commit region is reachable although the hash of the streamed bytes was not found equal to the client\'s declared hash', term_loc(b, lb))
